@@ -11,9 +11,10 @@ Section Facts.
   Variable text_of : val -> str.
   Variable traverse : str -> bool -> option val.
   Variable py : str -> val.
+  Variable strip1 : bool.
 
   Notation resultV := (result val).
-  Notation evaluateV := (evaluate val v_false v_true v_str is_none is_default truthy text_of traverse py).
+  Notation evaluateV := (evaluate val v_false v_true v_str is_none is_default truthy text_of traverse py strip1).
   Notation first_foundV := (first_found val).
   Notation first_trueV := (first_true val v_false v_true truthy).
   Notation string_loopV := (string_loop val is_none text_of traverse).
@@ -61,10 +62,10 @@ Section Facts.
     { unfold eval_path. destruct (split_on BAR a) as [|s [|s2 r]]; try reflexivity; apply first_found_count; exact IH. }
     destruct (has_prefix "exists:" x) as [a|].
     { unfold eval_exists. destruct (split_on BAR a) as [|s r]; [reflexivity|].
-      destruct (traverse s false); [reflexivity|]. apply first_true_count; exact IH. }
+      destruct (traverse (first_alt strip1 s) false); [reflexivity|]. apply first_true_count; exact IH. }
     destruct (has_prefix "nocall:" x) as [a|].
     { unfold eval_nocall. destruct (split_on BAR a) as [|s r]; [reflexivity|].
-      destruct (traverse s false); [reflexivity|]. apply first_found_count; exact IH. }
+      destruct (traverse (first_alt strip1 s) false); [reflexivity|]. apply first_found_count; exact IH. }
     destruct (has_prefix "not:" x) as [a|].
     { unfold eval_not. specialize (IH a). destruct (evaluateV f false a) as [[v|] k]; simpl in IH; subst k.
       - destruct (is_none v); [reflexivity|]. destruct (is_default v); [reflexivity|]. destruct (truthy v); reflexivity.
@@ -115,17 +116,34 @@ Section Facts.
 
   (* ---- exists: / nocall: look at the path without calling its value ---- *)
   Lemma exists_of_path (ev : str -> resultV) p : mem_N BAR p = false ->
-    fst (eval_exists val v_false v_true truthy traverse ev p) =
-    Some (match traverse p false with Some _ => v_true | None => v_false end).
+    fst (eval_exists val v_false v_true truthy traverse strip1 ev p) =
+    Some (match traverse (first_alt strip1 p) false with Some _ => v_true | None => v_false end).
   Proof.
-    intros H. unfold eval_exists. rewrite (split_on_no_sep BAR p H). destruct (traverse p false); reflexivity.
+    intros H. unfold eval_exists. rewrite (split_on_no_sep BAR p H). destruct (traverse (first_alt strip1 p) false); reflexivity.
   Qed.
 
   Lemma nocall_of_path (ev : str -> resultV) p : mem_N BAR p = false ->
-    fst (eval_nocall val traverse ev p) = traverse p false.
+    fst (eval_nocall val traverse strip1 ev p) = traverse (first_alt strip1 p) false.
   Proof.
-    intros H. unfold eval_nocall. rewrite (split_on_no_sep BAR p H). destruct (traverse p false); reflexivity.
+    intros H. unfold eval_nocall. rewrite (split_on_no_sep BAR p H). destruct (traverse (first_alt strip1 p) false); reflexivity.
   Qed.
+
+  (* `exists:a | b`, `nocall:a | b`: when the first alternative exists it decides, whatever blanks surround it *)
+  Lemma exists_first_alt (ev : str -> resultV) expr a r v : split_on BAR expr = a :: r ->
+    traverse (first_alt strip1 a) false = Some v ->
+    fst (eval_exists val v_false v_true truthy traverse strip1 ev expr) = Some v_true.
+  Proof. intros H T. unfold eval_exists. rewrite H, T. reflexivity. Qed.
+
+  Lemma nocall_first_alt (ev : str -> resultV) expr a r v : split_on BAR expr = a :: r ->
+    traverse (first_alt strip1 a) false = Some v ->
+    fst (eval_nocall val traverse strip1 ev expr) = Some v.
+  Proof. intros H T. unfold eval_nocall. rewrite H, T. reflexivity. Qed.
+
+  (* ... otherwise the remaining alternatives are tried as expressions of their own *)
+  Lemma nocall_rest (ev : str -> resultV) expr a r : split_on BAR expr = a :: r ->
+    traverse (first_alt strip1 a) false = None ->
+    fst (eval_nocall val traverse strip1 ev expr) = fst (first_foundV ev r 0%nat).
+  Proof. intros H T. unfold eval_nocall. rewrite H, T. reflexivity. Qed.
 
   (* ---- statements as they appear in Props ---- *)
   Lemma not_law (ev : str -> resultV) e :
@@ -135,12 +153,54 @@ Section Facts.
   Proof. split; [apply not_of_missing | intros v; apply not_of_value]. Qed.
 
   Lemma exists_nocall_law (ev : str -> resultV) p : mem_N BAR p = false ->
-    fst (eval_exists val v_false v_true truthy traverse ev p) =
-      Some (match traverse p false with Some _ => v_true | None => v_false end) /\
-    fst (eval_nocall val traverse ev p) = traverse p false.
+    fst (eval_exists val v_false v_true truthy traverse strip1 ev p) =
+      Some (match traverse (first_alt strip1 p) false with Some _ => v_true | None => v_false end) /\
+    fst (eval_nocall val traverse strip1 ev p) = traverse (first_alt strip1 p) false.
   Proof. intros H. split; [now apply exists_of_path | now apply nocall_of_path]. Qed.
+
+  Lemma exists_nocall_alternation (ev : str -> resultV) expr a r :
+    split_on BAR expr = a :: r ->
+    (forall v, traverse (first_alt strip1 a) false = Some v ->
+       fst (eval_exists val v_false v_true truthy traverse strip1 ev expr) = Some v_true /\
+       fst (eval_nocall val traverse strip1 ev expr) = Some v) /\
+    (traverse (first_alt strip1 a) false = None ->
+       fst (eval_nocall val traverse strip1 ev expr) = fst (first_foundV ev r 0%nat)).
+  Proof.
+    intros H. split.
+    - intros v T. split; [eapply exists_first_alt | eapply nocall_first_alt]; eassumption.
+    - intros T. eapply nocall_rest; eassumption.
+  Qed.
 
   Lemma python_gate_full fuel e :
     snd (evaluateV fuel false e) = 0%nat /\ eval_python val v_false py false e = (Some v_false, 0%nat).
   Proof. split; [apply python_gate | reflexivity]. Qed.
 End Facts.
+
+(* the repaired first alternative is the stripped one *)
+Lemma first_alt_repaired a : first_alt true a = strip a.
+Proof. reflexivity. Qed.
+
+Lemma exists_nocall_alternation_repaired :
+  forall (val : Type) (v_false v_true : val) (truthy : val -> bool) (traverse : str -> bool -> option val)
+         (ev : str -> result val) expr a r, split_on BAR expr = a :: r ->
+    (forall v, traverse (strip a) false = Some v ->
+       fst (eval_exists val v_false v_true truthy traverse true ev expr) = Some v_true /\
+       fst (eval_nocall val traverse true ev expr) = Some v) /\
+    (traverse (strip a) false = None ->
+       fst (eval_nocall val traverse true ev expr) = fst (first_found val ev r 0%nat)).
+Proof. intros. now apply (exists_nocall_alternation val v_false v_true truthy traverse true). Qed.
+
+(* the pinned code (first alternative handed over with its trailing blank): `nocall:a | b` and `exists:a | b`
+   do not find a path that exists *)
+Lemma first_alt_pinned_refuted :
+  exists (traverse : str -> bool -> option bool) (ev : str -> result bool) (expr a : str) (r : list str),
+    split_on BAR expr = a :: r /\ traverse (strip a) false = Some true /\
+    fst (eval_nocall bool traverse false ev expr) = None /\
+    fst (eval_nocall bool traverse true ev expr) = Some true /\
+    fst (eval_exists bool false true (fun b => b) traverse false ev expr) = Some false /\
+    fst (eval_exists bool false true (fun b => b) traverse true ev expr) = Some true.
+Proof.
+  exists (fun p _ => if str_eqb p (lit "a"%string) then Some true else None), (fun _ => (None, 0%nat)),
+         (lit "a | b"%string), (lit "a "%string), [lit " b"%string].
+  vm_compute. repeat split; reflexivity.
+Qed.
